@@ -100,6 +100,8 @@ pub struct Rendered {
     pub text: String,
     /// byte offset at which the code part begins (after the data section)
     pub code_start: usize,
+    /// spelling choices actually taken: (upper-case tokens, non-decimal constants, non-trivial separators)
+    pub spelling: (u32, u32, u32),
     /// byte offset of the first token of every flat instruction (macro-made instructions: the use site;
     /// implied ret: the closing brace)
     pub flat_offsets: Vec<usize>,
@@ -272,7 +274,7 @@ pub fn render_program(p: &Program, lay: &Layout) -> Rendered {
     } else if !out.ends_with('\n') {
         out.push('\n');
     }
-    Rendered { text: out, flat_offsets, code_start }
+    Rendered { text: out, flat_offsets, code_start, spelling: (ch.n_upper, ch.n_radix, ch.n_sep) }
 }
 
 /// offsets of the data labels inside their segments (reference computation)
